@@ -147,11 +147,19 @@ def CmpOp.evalF (op : CmpOp) (a b : Fl) : Bool :=
   | .eq => Fl.feq a b
   | .ne => Fl.fne a b
 
+/-- A piece of a traced string: literal text (as code points) or the printed form of a number. -/
+inductive StrPart where
+  | text (cps : List Nat)
+  | num (e : Expr)
+deriving DecidableEq, Repr, Inhabited
+
 /-- One output slot of a traced entry point. -/
 inductive Out where
   | num (e : Expr)
   | bool (b : Bool)
-  | absent               -- e.g. the components of an empty `std::optional`
+  | int (i : Int)          -- integers, enumerators, hashes (not traced through)
+  | str (parts : List StrPart)
+  | dims (d : List Int)
 deriving DecidableEq, Repr, Inhabited
 
 /-- Decision trees: the merged traces of a branching entry point. A leaf carries one `Out` per
